@@ -19,3 +19,15 @@ package ioutil
 //gvc:  ensures out: dst.#wlen == old(dst.#wlen) + n
 //gvc:  ensures bytes: forall(k, 0, n, dst.#wdata[old(dst.#wlen) + k] == field(src, "io.LimitedReader.R").#data[old(field(src, "io.LimitedReader.R").#pos) + k])
 //gvc:end
+
+// CheckClose closes c and reports a close error through *err unless *err
+// already holds an earlier error (the deferred-close idiom).
+//gvc:func CheckClose
+//gvc:  props C20
+//gvc:  theory int
+//gvc:  opt nonil
+//gvc:  requires nn: err != nil
+//gvc:  modifies *err, c.#open, c.#closeerr
+//gvc:  ensures closed: !c.#open
+//gvc:  ensures reported: deref(err) == ite(old(deref(err)) != nil, old(deref(err)), c.#closeerr)
+//gvc:end
